@@ -243,6 +243,15 @@ fn handle_on_connection(
     match state {
         // Client received SYN-ACK. Move to Established and ACK.
         TcpState::SynSent if s.flags.syn && s.flags.ack => {
+            // RFC 793: a SYN-ACK that does not acknowledge our SYN is a
+            // leftover of an older incarnation of this 4-tuple. Answer
+            // with a RST (which clears the stale half-open peer) and keep
+            // waiting; our retransmitted SYN then gets a proper answer.
+            let expected = k.lookup(fd).unwrap().tcb.as_ref().unwrap().snd_nxt;
+            if s.ack != expected {
+                emit_rst(k, local, remote, s);
+                return;
+            }
             let recv_cap = k.recv_buf_cap;
             let (snd_nxt, rcv_nxt, window) = {
                 let tcb = k.lookup_mut(fd).unwrap().tcb.as_mut().unwrap();
